@@ -229,10 +229,11 @@ def run(c, prog):
         c.violation(R, "bool|shape", f"write_bool / read_bool do not round-trip both truth values: {why}", wf.sp, instance="codec:bool")
 
     # --- interleave index maps
-    def index_map(fn, store):
+    def index_map(fn, store, pidx=1, depth=2):
         """(position polynomial over canonical i = value index, j = byte index; buffer size polynomial).
-        Loop order, iterator-vs-index style and hoisted lets do not matter (algebra.LoopNest)."""
-        param = fn.params[1]
+        Loop order, iterator-vs-index style and hoisted lets do not matter (algebra.LoopNest); the loops may sit in a
+        private helper of the module that is handed the array-of-arrays parameter."""
+        param = fn.params[pidx]
         plid = param["lid"]
 
         def symfn(n):
@@ -263,6 +264,23 @@ def run(c, prog):
             chain_size = Poly.const(1)
             for m_ in lens:
                 chain_size = chain_size * m_
+        if not ln.moves and depth > 0:
+            # no element move here: the loops are in a helper that receives the parameter
+            for cl in core.walk_fn(fn):
+                if cl.get("k") != "Call":
+                    continue
+                h = prog.fns.get(core.callee(cl) or "")
+                if h is None or h.body is None or h.crate != fn.crate or not h.path.startswith(fn.path.rsplit("::", 2)[0].rsplit("::", 1)[0]):
+                    continue
+                pos = [k_ for k_, a in enumerate(cl["args"]) if core.place_root_lid(a)[0] == plid and not core.place_root_lid(a)[1]]
+                if len(pos) == 1 and pos[0] < len(h.params):
+                    poly, hsize = index_map(h, store, pos[0], depth - 1)
+                    size = hsize
+                    if size is None:
+                        for n in core.walk_fn(fn):
+                            if n.get("k") == "Call" and n["f"].get("def") == "alloc::vec::from_elem":
+                                size = algebra.poly_eval(n["args"][1], ln.env, symfn)
+                    return poly, size
         if len(ln.moves) != 1:
             raise core.AnchorMissing(f"{fn.path}: expected exactly one element move inside the loops, found {len(ln.moves)}")
         dst, src, node = ln.moves[0]
@@ -341,19 +359,32 @@ def run(c, prog):
             raise NotAffine(f"{wf.path}: the per-element encoder yields no value")
         lw_next = env[last_w]
         # reader loop: *r += last; last = *r   (in either statement order that computes the same thing)
-        pat, it, body, _ = only(for_loops(rf), "for loop", rf)
-        rl = pat_binding_lids(pat)[0]
-        last_r = None
-        for st in core.walk_lets(rf.body):
-            if st["pat"].get("k") == "Binding" and core.lit_value(st.get("init", {})) == 0:
-                last_r = st["pat"]["lid"]
-        if last_r is None:
-            raise core.AnchorMissing(f"{rf.path}: accumulator initialised to 0 not found")
-        # input to the reader element is what the writer produced
-        env2 = {rl: out_w, last_r: Poly.sym("Lr")}
-        run_linear(body, env2)
-        decoded = env2[rl]
-        lr_next = env2[last_r]
+        folds = [n for n in core.walk_fn(rf) if n.get("k") == "MethodCall" and n["m"] == "fold" and len(n["args"]) == 2 and core.strip(n["args"][1]).get("k") == "Closure" and len(core.strip(n["args"][1])["params"]) == 2]
+        if not for_loops(rf) and len(folds) == 1 and core.lit_value(folds[0]["args"][0]) == 0:
+            # `output.iter_mut().fold(0, |last, r| { *r = ..last..; *r })`: the accumulator is the closure's first
+            # parameter, its next value is what the closure returns
+            cl = core.strip(folds[0]["args"][1])
+            acc_l = pat_binding_lids(cl["params"][0]["pat"] if "pat" in cl["params"][0] else cl["params"][0])[0] if "lid" not in cl["params"][0] else cl["params"][0]["lid"]
+            rl = pat_binding_lids(cl["params"][1]["pat"] if "pat" in cl["params"][1] else cl["params"][1])[0] if "lid" not in cl["params"][1] else cl["params"][1]["lid"]
+            env2 = {rl: out_w, acc_l: Poly.sym("Lr")}
+            lr_next = run_linear(cl["body"], env2)
+            if lr_next is None:
+                raise NotAffine(f"{rf.path}: the fold closure yields no accumulator")
+            decoded = env2[rl]
+        else:
+            pat, it, body, _ = only(for_loops(rf), "for loop", rf)
+            rl = pat_binding_lids(pat)[0]
+            last_r = None
+            for st in core.walk_lets(rf.body):
+                if st["pat"].get("k") == "Binding" and core.lit_value(st.get("init", {})) == 0:
+                    last_r = st["pat"]["lid"]
+            if last_r is None:
+                raise core.AnchorMissing(f"{rf.path}: accumulator initialised to 0 not found")
+            # input to the reader element is what the writer produced
+            env2 = {rl: out_w, last_r: Poly.sym("Lr")}
+            run_linear(body, env2)
+            decoded = env2[rl]
+            lr_next = env2[last_r]
         # under the invariant Lw == Lr
         def subst(p):
             return Poly({tuple("L" if s in ("Lw", "Lr") else s for s in k): v for k, v in merge(p).items()})
